@@ -72,6 +72,7 @@ CONSTANTS
     Kinds,        \* kinds Record may pick when Palettes = {}
     RestartResizes, \* TRUE: Restart may come up with any size of MemSizes; FALSE: same size
     AnonModes,    \* subset of BOOLEAN: values SetConf may give conf.AnonymizeClientIP
+    Faults,       \* explore write faults during a flush (AppFails, AutoFlushFails)
     AllowWindow,  \* explore records inside the excluded flush-pending window
     EmitEdges     \* print labelled edges and per-state observation tables (direction A)
 
@@ -394,6 +395,39 @@ App ==
     /\ cur' = cur \o batch /\ batch' = <<>>
     /\ UNCHANGED <<mem, rot, flushPending, memSize, fileEnabled, enabled, anon, clock, pal, recorded, inScope, lastReply>>
 
+(* I/O fault: the file cannot be written when the second half of a flush    *)
+(* runs (flushToFile returns an error; nothing reaches the file).  The      *)
+(* statement does not say what becomes of the entries of *that* batch.  The *)
+(* code drops them (they were taken out of the ring before the write), and  *)
+(* that is what is modelled: they leave `recorded' -- a fault, not a loss   *)
+(* the property speaks about.  (Putting them back into a ring that is full  *)
+(* would only move the loss to the next Add; an implementation that keeps   *)
+(* them somewhere else needs the spec extended.)                            *)
+(* What the statement does require is everything                            *)
+(* *after* the fault: the flush is over (no batch, no pending request), so  *)
+(* recording and flushing go on and every later record is returned exactly  *)
+(* once -- which the ordinary invariants then check in the states that      *)
+(* follow.                                                                  *)
+Without(seq, gone) == SelectSeq(seq, LAMBDA x : \A i \in DOMAIN gone : gone[i].ts # x.ts)
+AppFails ==
+    /\ batch # <<>> /\ batch' = <<>>
+    /\ recorded' = Without(recorded, batch)
+    /\ UNCHANGED <<mem, cur, rot, flushPending, memSize, fileEnabled, enabled, anon, clock, pal, inScope, lastReply>>
+
+(* The same fault in the flush that Add requested (both halves at once, as  *)
+(* AutoFlush).                                                              *)
+AutoFlushFails ==
+    /\ ~AllowWindow /\ flushPending /\ batch = <<>> /\ mem # <<>>
+    /\ flushPending' = FALSE
+    /\ mem' = <<>> /\ recorded' = Without(recorded, mem)
+    /\ UNCHANGED <<cur, rot, batch, memSize, fileEnabled, enabled, anon, clock, pal, inScope, lastReply>>
+
+(* A failed explicit flush with nothing in between; used by the trace spec. *)
+FlushFails ==
+    /\ fileEnabled /\ batch = <<>> /\ ~flushPending /\ mem # <<>>
+    /\ mem' = <<>> /\ recorded' = Without(recorded, mem)
+    /\ UNCHANGED <<cur, rot, batch, flushPending, memSize, fileEnabled, enabled, anon, clock, pal, inScope, lastReply>>
+
 (* Both halves of an explicit flush with nothing in between (what a caller   *)
 (* of flushLogBuffer sees); used by the trace spec.                         *)
 Flush ==
@@ -584,6 +618,8 @@ DoRec ==
 DoEnc       == Enc /\ Edge("enc", [x |-> 0])
 DoApp       == App /\ Edge("app", [x |-> 0])
 DoAutoFlush == AutoFlush /\ Edge("autoflush", [x |-> 0])
+DoAppFails  == Faults /\ AppFails /\ Edge("appfail", [x |-> 0])
+DoAutoFlushFails == Faults /\ AutoFlushFails /\ Edge("autoflushfail", [x |-> 0])
 DoRotate    == Calm /\ Rotate /\ Edge("rotate", [x |-> 0])
 DoClear     == Calm /\ Clear /\ Edge("clear", [x |-> 0])
 DoConf ==
@@ -597,7 +633,7 @@ DoRestart ==
 DoSearch == Quiescent /\ ~EmitEdges /\ (\E p \in SearchParams : SearchP(p))
 
 Next ==
-    \/ DoRec \/ DoEnc \/ AutoEnc \/ DoApp \/ DoAutoFlush
+    \/ DoRec \/ DoEnc \/ AutoEnc \/ DoApp \/ DoAutoFlush \/ DoAppFails \/ DoAutoFlushFails
     \/ DoRotate \/ DoClear \/ DoConf \/ DoRestart
     \/ DoSearch \/ Observe
 
